@@ -4,7 +4,8 @@ C03 - A document is always a well-formed tree, whatever editing history produced
 
 Random and enumerated editing histories are run on the real library and on the Lean heap model;
 the snapshot of every object is compared after every operation; the well-formedness oracle is
-evaluated on the implementation's snapshots.
+evaluated on the implementation's snapshots. A second stream mixes the primitive operations with
+clone (+attach), Section.merge, the link setter and clean (Model/HeapExt.lean).
 """
 import itertools
 import random
@@ -65,41 +66,460 @@ class HeapCheck(fw.Check):
                 len(tr) >= 5 and len(kinds) >= 3)
 
 
+# ----------------------------------------------------------------------------- extended operations
+# clone (+attach), Section.merge, the link setter and clean: run on the real library and on
+# lean/OdmlModel/Model/HeapExt.lean, where they are programs over the primitive operations.
+# Objects created inside an operation get the next handles in creation order: on the
+# implementation the public clone methods of the three classes are wrapped while the operation
+# runs (entry order = allocation order of the model); a copy that is dropped again (the append
+# of a merge raised) is kept alive here so that both sides number alike.
+
+X_OPS = ("clone", "merge", "set_link", "clean")
+X_FUEL = 400
+MAX_OBJS_X = 45
+
+
+class track_clones(object):
+    def __init__(self, created):
+        self.created = created
+        self.saved = []
+
+    def __enter__(self):
+        import odml
+        created = self.created
+        impl = odml.getImplementation()
+        for cls in (impl.Section, impl.Property, impl.Document):
+            had = "clone" in cls.__dict__
+            orig = cls.clone
+
+            def make(orig):
+                def clone(obj, *args, **kwargs):
+                    slot = len(created)
+                    created.append(None)
+                    res = orig(obj, *args, **kwargs)
+                    created[slot] = res
+                    return res
+                return clone
+            self.saved.append((cls, had, cls.__dict__.get("clone")))
+            setattr(cls, "clone", make(orig))
+        return self
+
+    def __exit__(self, *exc):
+        for cls, had, old in reversed(self.saved):
+            if had:
+                setattr(cls, "clone", old)
+            else:
+                delattr(cls, "clone")
+        return False
+
+
+def chain(x):
+    out = []
+    while x is not None and len(out) < 1000:
+        out.append(x)
+        x = x.parent
+    return out
+
+
+def related(x, y):
+    return any(o is y for o in chain(x)) or any(o is x for o in chain(y))
+
+
+def subtree(x, limit=2000):
+    """x, its Sections at every depth and their Properties (identity list)."""
+    out = [x]
+    todo = [x]
+    while todo and len(out) < limit:
+        cur = todo.pop()
+        for s in list(cur.sections):
+            out.append(s)
+            todo.append(s)
+        if hasattr(cur, "properties"):
+            out.extend(list(cur.properties))
+    return out
+
+
+def overlap(a, b):
+    ids = set(id(o) for o in subtree(a))
+    return any(id(o) in ids for o in subtree(b))
+
+
+class XWorld(hc.World):
+    def __init__(self):
+        hc.World.__init__(self)
+        self.last_clone = None
+
+    def kind(self, obj):
+        if obj is None:
+            return "lost"
+        return hc.World.kind(self, obj)
+
+    def snapshot(self):
+        out = []
+        for o in self.objs:
+            if o is None:
+                out.append(None)
+                continue
+            k = self.kind(o)
+            par = o.parent
+            mer = o.get_merged_equivalent() if k == "sec" else None
+            out.append({
+                "kind": k,
+                "name": "" if k == "doc" else o.name,
+                "id": o.id,
+                "parent": None if par is None else self.handle_of(par),
+                "secs": [self.handle_of(s) for s in list(o.sections)] if k != "prop" else [],
+                "props": [self.handle_of(p) for p in list(o.properties)] if k == "sec" else [],
+                "merged": None if mer is None else self.handle_of(mer),
+                "link": bool(k == "sec" and o.link is not None),
+            })
+        return out
+
+    # -- what the model cannot know: observed with the public API *before* the operation --------
+    def secs(self):
+        return [(i, o) for i, o in enumerate(self.objs) if self.kind(o) == "sec"]
+
+    def props(self):
+        return [(i, o) for i, o in enumerate(self.objs) if self.kind(o) == "prop"]
+
+    def merged_pairs(self, region=None):
+        out = []
+        for i, s in self.secs():
+            if region is not None and not any(s is o for o in region):
+                continue
+            t = s.get_merged_equivalent()
+            if t is not None:
+                out.append((s, t))
+        return out
+
+    def merge_tables(self, op, strict):
+        op["ty"] = [o.type if self.kind(o) == "sec" else "" for o in self.objs]
+        sec_bad = []
+        if strict:
+            bare = [(i, s.clone(children=False)) for i, s in self.secs()]
+            for i, a in bare:
+                for j, b in bare:
+                    try:
+                        a.merge_check(b, True)
+                    except Exception:
+                        sec_bad.append([i, j])
+        prop_bad = []
+        for i, a in self.props():
+            for j, b in self.props():
+                try:
+                    a.merge_check(b, strict)
+                except Exception:
+                    prop_bad.append([i, j])
+        op["sec_bad"] = sec_bad
+        op["prop_bad"] = prop_bad
+
+    def clean_tables(self, op, pairs, unlinked=None):
+        """== and get_relative_path for every pair unmerge can look at: (object below a merged
+        Section, object below its target). `unlinked`: the Section whose link the operation resets
+        before it cleans; == looks at the link attribute too, so this Section is compared in the
+        shape it will have then (a detached copy with the link taken off)."""
+        op.setdefault("ty", [o.type if self.kind(o) == "sec" else "" for o in self.objs])
+        eq, rel_bad, seen = [], [], set()
+        ghost = None
+        if unlinked is not None and unlinked.link is not None:
+            ghost = unlinked.clone(keep_id=True)
+            ghost.link = None
+        for s, t in pairs:
+            for a in subtree(s):
+                for b in subtree(t):
+                    ia, ib = self.handle_of(a), self.handle_of(b)
+                    if (ia, ib) in seen or "?" in (ia, ib) or self.kind(a) != self.kind(b):
+                        continue
+                    seen.add((ia, ib))
+                    try:
+                        if (ghost if ghost is not None and a is unlinked else a) == b:
+                            eq.append([ia, ib])
+                    except Exception:
+                        pass
+                    if self.kind(a) == "sec" and a.link is not None and not (ghost is not None and a is unlinked):
+                        try:
+                            a.get_relative_path(b)
+                        except Exception:
+                            rel_bad.append([ia, ib])
+        op["eq"] = eq
+        op["rel_bad"] = rel_bad
+
+    def clean_scope(self, x):
+        """The merged pairs a clean of x visits, or None when a target overlaps a merged Section
+        of the region (outside the scope of link resolution, see C12)."""
+        region = subtree(x)
+        pairs = self.merged_pairs(region)
+        for s, t in pairs:
+            if self.handle_of(t) == "?" or self.kind(t) != "sec":
+                return None
+            for s2, _t2 in pairs:
+                if overlap(t, s2):
+                    return None
+        return pairs
+
+    def prepare(self, op):
+        """Fills in the oracle tables; False = outside the scope, the operation is skipped."""
+        O = self.objs
+        kind = op["op"]
+        if len(O) > MAX_OBJS_X and kind in ("clone", "merge", "set_link"):
+            return False
+        if kind == "merge":
+            a, b = O[op["dest"]], O[op["src"]]
+            if related(a, b):
+                op["strict"] = False     # the attribute tables could change under the operation
+            self.merge_tables(op, op["strict"])
+        elif kind == "clean":
+            x = O[op["x"]]
+            if self.kind(x) == "prop":
+                return True
+            pairs = self.clean_scope(x)
+            if pairs is None:
+                return False
+            self.clean_tables(op, pairs)
+        elif kind == "set_link":
+            x = O[op["x"]]
+            tgt = O[op.pop("tsym")]
+            if op["val"] == "path":
+                op["path"] = tgt.get_path() if op.pop("absolute", True) else x.get_relative_path(tgt)
+                op["target"] = None
+                if x.parent is not None:
+                    if not op["path"]:
+                        op["val"] = "falsy"
+                    else:
+                        try:
+                            found = x.get_section_by_path(op["path"])
+                            h = self.handle_of(found)
+                            if h == "?" or self.kind(found) != "sec":
+                                return False
+                            op["target"] = h
+                        except Exception:
+                            op["target"] = None
+                    if op["target"] is not None:
+                        a, b = x, O[op["target"]]
+                        if related(a, b):
+                            return False
+                        for s, t in self.merged_pairs():
+                            if s is a:
+                                continue
+                            if related(b, s) or related(t, a) or related(t, b) or related(s, a):
+                                return False
+            if x.parent is not None:
+                pairs = self.clean_scope(x)
+                if pairs is None:
+                    return False
+                self.clean_tables(op, pairs, x if op["val"] != "path" else None)
+                self.merge_tables(op, False)
+        return True
+
+    def apply(self, op):
+        kind = op["op"]
+        O = self.objs
+        if kind not in X_OPS:
+            n = len(O)
+            hc.World.apply(self, op)
+            if kind == "construct" and len(O) == n + 1:
+                # attributes without any role for the tree structure; they make merge_check and ==
+                # answer differently from pair to pair
+                if op.get("defn") is not None:
+                    O[n].definition = op["defn"]
+                if op.get("unit") is not None:
+                    O[n].unit = op["unit"]
+                if op.get("vals") is not None:
+                    O[n].values = op["vals"]
+            return
+        created = []
+        try:
+            with track_clones(created):
+                if kind == "clone":
+                    x = O[op["x"]]
+                    if self.kind(x) == "prop":
+                        x.clone(keep_id=op["keep_id"])
+                    else:
+                        x.clone(children=op["children"], keep_id=op["keep_id"])
+                elif kind == "merge":
+                    O[op["dest"]].merge(O[op["src"]], strict=op["strict"])
+                elif kind == "clean":
+                    O[op["x"]].clean()
+                elif kind == "set_link":
+                    O[op["x"]].link = {"none": None, "falsy": ""}.get(op["val"], op.get("path"))
+        finally:
+            if kind == "clone":
+                self.last_clone = len(O) if created and created[0] is not None else None
+            O.extend(created)
+            op["fresh"] = [o.id if o is not None else "" for o in created]
+
+
+def resolve_x(w, op):
+    """Symbolic handles of a history with extended operations -> concrete handles."""
+    op = dict(op)
+    for key, val in list(op.items()):
+        if isinstance(val, dict) and val.get("last"):
+            if w.last_clone is None or w.last_clone >= len(w.objs) or w.objs[w.last_clone] is None:
+                return None
+            op[key] = w.last_clone
+            if op["op"] == "rename" and w.kind(w.objs[w.last_clone]) == "doc":
+                return None      # a Document has no name setter (plain attribute; not an editing operation)
+    if op["op"] not in X_OPS:
+        return hc.resolve(w, op)
+
+    def pick(sym):
+        if isinstance(sym, int):
+            return sym
+        cand = [i for i, o in enumerate(w.objs) if w.kind(o) in sym["cls"]]
+        return cand[sym["n"] % len(cand)] if cand else None
+    for key in ("x", "dest", "src", "tsym"):
+        if key in op:
+            op[key] = pick(op[key])
+            if op[key] is None:
+                return None
+    return op
+
+
+def run_history_x(ops):
+    w = XWorld()
+    trace, done, skipped = [], [], 0
+    for op in ops:
+        cop = resolve_x(w, op)
+        if cop is None:
+            continue
+        if cop["op"] in X_OPS and not w.prepare(cop):
+            skipped += 1
+            continue
+        try:
+            w.apply(cop)
+            out = "ok"
+        except RecursionError:
+            out = "RecursionError"
+        except Exception as exc:
+            out = fw.exc_name(exc)
+        trace.append({"out": out, "snap": w.snapshot()})
+        done.append(cop)
+    return trace, done, skipped
+
+
+BLANK = {"kind": "sec", "name": "#lost", "id": "", "parent": None, "secs": [], "props": [],
+         "merged": None, "link": False}
+
+
+def oracle_snap(snap):
+    return [BLANK if o is None else o for o in snap]
+
+
+class GenX(hc.Gen):
+    """Histories mixing the primitive operations with clone(+attach) / merge / link / clean."""
+
+    def attrs(self, op):
+        r = self.rng
+        if op["kind"] == "sec":
+            op["defn"] = r.choice([None, None, "d1", "d2"])
+        elif op["kind"] == "prop":
+            op["unit"] = r.choice([None, None, "mV", "V"])
+            op["vals"] = r.choice([[1], [1], [2], [1, 2]])
+        return op
+
+    def history(self):
+        r = self.rng
+        P = hc.P
+        ops = [self.construct("doc", False)]
+        for _ in range(r.randrange(3, 7)):
+            op = self.attrs(self.construct("sec", True))
+            op["args_ok"] = True
+            ops.append(op)
+        for _ in range(r.randrange(2, 6)):
+            op = self.attrs(self.construct("prop", True))
+            op["args_ok"] = True
+            ops.append(op)
+        pool = [op for op in hc.Gen(random.Random(r.randrange(1 << 60)), max_ops=24).history()[3:]]
+        pool = [self.attrs(op) if op["op"] == "construct" else op for op in pool]
+        sec = lambda: P(r, "sec")
+        cont = lambda: P(r, "doc", "sec", "sec", "sec")
+        for _ in range(r.randrange(3, 15)):
+            c = r.random()
+            if c < 0.40 and pool:
+                ops.append(pool.pop(0))
+            elif c < 0.58:
+                ops.append({"op": "clone", "x": P(r, "sec", "sec", "sec", "prop", "doc") if r.random() < 0.3
+                            else sec(), "children": r.random() < 0.75, "keep_id": r.random() < 0.3})
+                if r.random() < 0.5:
+                    ops.append({"op": "rename", "x": {"last": True}, "new": r.choice(hc.NAMES),
+                                "empty": r.choice(["none", "str"])})
+                if r.random() < 0.85:
+                    how = r.random()
+                    if how < 0.6:
+                        ops.append({"op": "append", "p": cont(), "x": {"last": True}})
+                    elif how < 0.8:
+                        ops.append({"op": "insert", "p": cont(), "pos": r.randrange(-3, 5), "x": {"last": True}})
+                    else:
+                        ops.append({"op": "set_parent", "x": {"last": True}, "np": cont()})
+            elif c < 0.76:
+                ops.append({"op": "merge", "dest": sec(), "src": sec(), "strict": r.random() < 0.5})
+            elif c < 0.90:
+                ops.append({"op": "set_link", "x": sec(), "tsym": sec(), "absolute": r.random() < 0.8,
+                            "val": r.choice(["path", "path", "path", "path", "none", "falsy"])})
+            else:
+                ops.append({"op": "clean", "x": P(r, "doc", "sec", "sec", "prop") if r.random() < 0.2
+                            else P(r, "doc", "sec")})
+        return ops
+
+
 class C03(HeapCheck):
     prop = "C03"
     lean_targets = ["OdmlModel.Props.C03"]
     obligations = ["C03." + t for t in [
         "wf_empty", "wf_step", "wf_reachable_partial", "wf_run", "parent_chain_terminates",
-        "not_own_ancestor", "in_exactly_one_list", "document_is_chain_root"]]
+        "not_own_ancestor", "in_exactly_one_list", "document_is_chain_root",
+        # the extended operation set (clone+attach, merge, link setter, clean)
+        "wf_step_ext", "wf_run_ext", "wf_reachable", "ext_step_refines", "ext_run_refines",
+        "parent_chain_terminates_ext", "not_own_ancestor_ext", "in_exactly_one_list_ext",
+        "document_is_chain_root_ext", "clone_detached", "clone_fresh", "clone_then_attach_wf",
+        "merge_only_adds", "merge_keeps_existing", "clean_only_detaches", "clone_terminates"]]
     quick_n = 1500
     thorough_n = 40000
     case_timeout = 10
     trusted_base = [
         "Lean 4.33.0 kernel; axioms propext, Classical.choice, Quot.sound only (audited per theorem)",
-        "hand-written model lean/OdmlModel/Model/Heap.lean, tied to /repo by this correspondence run",
-        "Driver/HeapCommon.lean JSON glue; harness/framework.py, heapcommon.py, c03.py",
+        "hand-written models lean/OdmlModel/Model/Heap.lean and Model/HeapExt.lean, tied to /repo by this "
+        "correspondence run",
+        "Driver/HeapCommon.lean + Driver/C03.lean JSON glue; harness/framework.py, heapcommon.py, c03.py",
     ]
     assumptions = [
-        "clone, merge and link resolve/clean are exercised by the oracle stream only (not in the "
-        "proved operation set); list methods inherited from `list` (pop, del, sort, +=) are outside "
-        "the property's quantifier",
+        "clone (+attach), Section.merge, the link setter and clean/unmerge are in the proved operation set "
+        "(Model/HeapExt.lean, programs over the primitive operations); what the tree structure does not "
+        "determine (Section types, outcome of the attribute checks of merge_check / Property.merge, ==, "
+        "get_relative_path, ids of copies) is an abstract oracle in the theorems and is observed on the "
+        "implementation with the public API before each operation in the correspondence run",
+        "not proved: that the recursion budget of merge/unmerge/clean/link assignment suffices (termination; "
+        "proved for clone); "
+        "Document.finalize() / Section.merge() without argument are compositions of link assignments whose "
+        "traversal order is not modelled (oracle stream only); include is never set",
+        "list methods inherited from `list` (pop, del, sort, +=) are outside the property's quantifier",
         "object identity is modelled by handles; uuid4 values never matter",
     ]
     rule = ("random editing histories (5..40 ops quick, ..80 thorough) over <= 12 objects, names from "
             "{a,b,c,ab,''}, symbolic handles resolved against the live state so that attached and "
-            "detached receivers, own-subtree targets, clashes and wrong types are frequent; plus "
-            "clone/merge/link histories checked by the oracle only. Non-trivial = at least 5 executed "
-            "ops of at least 3 kinds; distinct = distinct canonical JSON of the history.")
+            "detached receivers, own-subtree targets, clashes and wrong types are frequent; histories mixing "
+            "these with clone (+rename/attach of the copy), merge (strict or not; related pairs non-strict), "
+            "link assignment (C12's scope) and clean on Sections of two types with different definitions and "
+            "Properties with different units/values, <= 45 objects, all compared with the model after every op; "
+            "plus clone/merge/link/finalize histories checked by the oracle only. Non-trivial = at least 5 "
+            "executed ops of at least 3 kinds (extended histories: at least one extended operation); distinct "
+            "= distinct canonical JSON of the history.")
 
     def generate(self, tier, rng):
         cases = self.histories(tier, rng)
-        n = 150 if tier == "quick" else 3000
+        n = 60 if tier == "quick" else 1500
         for _ in range(n):
             cases.append({"extra": True, "seed": rng.randrange(1 << 60)})
+        nx = 700 if tier == "quick" else 10000
+        for _ in range(nx):
+            cases.append({"xops": GenX(random.Random(rng.randrange(1 << 60))).history()})
         return cases
 
     # -- extra stream: clone / merge / link+clean, oracle only -----------------
     def impl(self, case):
+        if "xops" in case:
+            trace, done, skipped = run_history_x(case["xops"])
+            return {"x": True, "trace": trace, "done": done, "skipped": skipped}
         if not case.get("extra"):
             return HeapCheck.impl(self, case)
         import odml
@@ -192,14 +612,47 @@ class C03(HeapCheck):
     def model_requests(self, case, obs):
         if obs.get("extra"):
             return []
+        if obs.get("x"):
+            return [{"op": "runx", "fuel": X_FUEL, "ops": hc.model_ops(obs["done"])}]
         return HeapCheck.model_requests(self, case, obs)
 
     def compare(self, case, obs, answers):
         if obs.get("extra"):
             return []
+        if obs.get("x"):
+            return self.compare_x(obs, answers[0])
         return HeapCheck.compare(self, case, obs, answers)
 
+    @staticmethod
+    def brief(op):
+        return dict((k, v) for k, v in op.items()
+                    if k not in ("ty", "sec_bad", "prop_bad", "eq", "rel_bad", "fresh"))
+
+    def compare_x(self, obs, model):
+        brk, _ = hc.first_wf_break([{"snap": oracle_snap(s["snap"])} for s in obs["trace"]])
+        for k, (step, m) in enumerate(zip(obs["trace"], model)):
+            if brk is not None and k > brk:
+                break
+            op = self.brief(obs["done"][k])
+            if (step["out"] == "ok") != (m["out"] == "ok"):
+                return ["op %d %s: implementation %s, model %s" % (k, op, step["out"], m["out"])]
+            a, b = step["snap"], m["snap"]
+            if len(a) != len(b):
+                return ["op %d %s: implementation created %d objects so far, model %d"
+                        % (k, op, len(a), len(b))]
+            # an object the implementation dropped while it was being built cannot be observed
+            diff = [i for i, (x, y) in enumerate(zip(a, b)) if x is not None and x != y]
+            if diff:
+                return ["op %d %s: snapshots differ at objects %s: implementation %s, model %s"
+                        % (k, op, diff, [a[i] for i in diff[:3]], [b[i] for i in diff[:3]])]
+        return []
+
     def tag(self, case, obs):
+        if obs.get("x"):
+            kinds = sorted(set(op["op"] for op in obs.get("done", []) if op["op"] in X_OPS))
+            refused = sum(1 for st, op in zip(obs.get("trace", []), obs.get("done", []))
+                          if st["out"] != "ok" and op["op"] in X_OPS)
+            return ("x:%s refused=%d" % ("+".join(kinds), min(refused, 2)), len(kinds) >= 1)
         if obs.get("extra"):
             return ("extra:" + "+".join(sorted(set(l[0] for l in obs.get("log", [])))[:3]), True)
         return HeapCheck.tag(self, case, obs)
@@ -209,6 +662,17 @@ class C03(HeapCheck):
             return []
         if obs.get("extra"):
             return ["after %s: %s" % (obs["log"], f) for f in obs["fails"]]
+        if obs.get("x"):
+            trace = [{"snap": oracle_snap(s["snap"])} for s in obs["trace"]]
+            k, fails = hc.first_wf_break(trace)
+            out = []
+            if k is not None:
+                out = ["after op %d %s (%s): %s" % (k, self.brief(obs["done"][k]), obs["trace"][k]["out"], f)
+                       for f in fails[:4] if "duplicate" not in f and "empty name" not in f]
+            for k2, step in enumerate(obs["trace"]):
+                if step["out"] == "RecursionError":
+                    out.append("op %d %s did not terminate (RecursionError)" % (k2, self.brief(obs["done"][k2])))
+            return out
         k, fails = hc.first_wf_break(obs["trace"])
         out = []
         if k is not None:
